@@ -275,6 +275,34 @@ int main(int argc, char **argv)
 			}
 		}
 		(void)total;
+	} else if (!strcmp(a.mode, "size")) {
+		/* size sweep: one string member grows so that the text of the whole object, of the named member and of their pretty forms
+		 * takes every length in a window around the sizes an implementation plausibly uses for fixed buffers */
+		static const int M[] = { 16, 32, 64, 128, 256, 512, 1000, 1024, 2048, 4096, 8192, 16384, 32768, 65536 };
+		long seq = 0;
+		for (size_t mi = 0; mi < sizeof(M) / sizeof(M[0]); mi++)
+			for (int N = M[mi] - 18; N <= M[mi] + 2; N++)
+				for (int tg = 0; tg < 6; tg++, seq++) {
+					op_t ops[8];
+					char *s, *js;
+					int n = 0;
+					if (N < 0 || !vh_mine(&a, seq)) continue;
+					if (M[mi] > 8192 && tg != 1 && tg != 5 && tg != (int)(mi % 6)) continue;
+					s = malloc((size_t)N + 1); memset(s, 'x', (size_t)N); s[N] = 0;
+					js = malloc((size_t)N + 16); sprintf(js, "{\"q\":[\"%s\"]}", s);
+					memset(ops, 0, sizeof(ops));
+					ops[n].kind = 'S'; ops[n].type = S; ops[n].name = "p"; ops[n].sval = s; ops[n].replace = 1; n++;
+					ops[n].kind = 'G'; ops[n].type = J; ops[n].name = NULL; n++;
+					ops[n].kind = 'G'; ops[n].type = J; ops[n].name = "p"; n++;
+					ops[n].kind = 'G'; ops[n].type = S; ops[n].name = "p"; n++;
+					ops[n].kind = 'G'; ops[n].type = J; ops[n].name = NULL; ops[n].pretty = 1; n++;
+					ops[n].kind = 'D'; ops[n].name = "p"; n++;
+					ops[n].kind = 'S'; ops[n].type = J; ops[n].name = NULL; ops[n].sval = js; ops[n].replace = 1; n++;
+					ops[n].kind = 'G'; ops[n].type = J; ops[n].name = "q"; n++;
+					vh_case_begin(seq, "\"mode\":\"size\",\"N\":%d", N);
+					run_seq(3000000 + seq, tg, ops, n);
+					free(s); free(js);
+				}
 	} else {
 		for (long s = 0; s < a.n; s++) {
 			int n;
